@@ -23,6 +23,7 @@ import PercevalModel.Lemmas.C16
 import PercevalModel.Lemmas.C16More
 import PercevalModel.Lemmas.C16Mat
 import PercevalModel.Lemmas.C16Heap
+import PercevalModel.Lemmas.C16Rpc
 
 namespace PM.C16
 open PM.SM
@@ -1523,6 +1524,237 @@ theorem aliased_request_mixes_creation_and_send_time :
     sentFilterAndIterations (run (hstep false) (HWorld.init ⟨none, none, none, none, ["sample_count"]⟩)
       aliasWitnessOps).2 = some (some (.int 2), 1) := by
   decide
+
+/-! ## one level down the network stack: the HTTP requests `RPCHandler` emits (`Model/C16Rpc.lean`)
+
+`rstep` is the session machine plus the handler (`name`, `url`, `token`, `proxies`, `request_timeout`) and the list of
+HTTP requests the client has emitted.  The transport under `requests` is a parameter of every call (`Wire`: answered
+with ANY status code and body, answer never read, not delivered); what the session machine calls `Net` is derived from
+it.  A request is a record (verb, URL, `Authorization` header, time-out, proxies, JSON document); the JSON document of
+a job creation is `platform_name` + the `Sent` of the session machine. -/
+
+/-- **rpc_refines_session.**  Over every history and whatever the transport does to each request, the machine with
+the HTTP layer IS the session machine on everything the latter knows (each call read with `Net := Wire.net`), and the
+handler is never touched: every theorem above about `step` holds of the sessions of `rstep`. -/
+theorem rpc_refines_session (rw : RWorld) (ops : List ROp) :
+    (exec rstep rw ops).w = exec step rw.w (ops.map ROp.toOp) ∧ (exec rstep rw ops).h = rw.h :=
+  ⟨rexec_refines rw ops, rexec_h rw ops⟩
+
+/-- … step by step, outputs included: the session machine's output is the abstraction of this one's (`.raised` is
+`.lost` when the platform took the request or may have, a transport error otherwise). -/
+theorem rpc_step_refines_session (rw : RWorld) (o : ROp) :
+    (rstep rw o).1.w = (step rw.w o.toOp).1 ∧ (step rw.w o.toOp).2 = (rstep rw o).2.abs o.2 :=
+  rstep_refines rw o
+
+/-- **one_post_per_execution.**  In every state, whatever the call and whatever the transport does: ONE call emits
+at most one HTTP request; the job-creation requests (POST) grow by exactly the one request the output stands for —
+none for an output of the session machine (`.plain`: every call other than `execute`, and an `execute` refused
+client-side), exactly one, built from the handler and the job's request, when `create_job` returned (`.sent`) or
+raised (`.raised`) — and only an `execute` produces such an output.  There is no retry and no second request. -/
+theorem one_post_per_execution (rw : RWorld) (o : ROp) :
+    (rstep rw o).1.http.length ≤ rw.http.length + 1 ∧
+    posts (rstep rw o).1.http = posts rw.http ++ (rstep rw o).2.post rw.h o.2 ∧
+    ((rstep rw o).2.post rw.h o.2).length ≤ 1 ∧
+    (∀ s, ((∃ id, (rstep rw o).2 = .sent id s) ∨ (∃ cls msg, (rstep rw o).2 = .raised cls msg s)) →
+      (rstep rw o).2.post rw.h o.2 = [⟨postReq rw.h s, some o.2⟩] ∧ o.1.isExecute = true) := by
+  refine ⟨?_, ?_, ?_, ?_⟩
+  · rw [rstep_http, List.length_append]; have := emitted_length rw o; omega
+  · rw [rstep_http, posts_append, posts_emitted]
+  · cases (rstep rw o).2 <;> simp [ROut.post]
+  · intro s hs
+    rcases rstep_out rw o with ⟨out, ho⟩ | ⟨idx, args, kw, net, jobs', s', hop, -, hpost, hres⟩
+    · rcases hs with ⟨id, h⟩ | ⟨cls, msg, h⟩ <;> rw [ho] at h <;> cases h
+    · have hss : s' = s := by
+        rcases hres with ⟨id, -, h⟩ | ⟨cls, msg, -, h⟩ <;> rcases hs with ⟨id', h'⟩ | ⟨cls', msg', h'⟩ <;>
+          rw [h] at h' <;> cases h' <;> rfl
+      subst hss
+      exact ⟨hpost, by rw [hop]; rfl⟩
+
+/-- **posted_body_is_the_jobs_request.**  Whenever an execution emits its POST (the call returns the job id, or
+`create_job` raises): the call is `execute(idx, args, kw)` on a job `j` never executed before, and the JSON document
+posted is the handler's platform name with EXACTLY the request `_create_payload_data(*args, **kw)` builds from the
+request `j` has held since its creation, under the job's name, with the iterations the job captured. -/
+theorem posted_body_is_the_jobs_request (rw : RWorld) (o : ROp) (s : Sent)
+    (h : (∃ id, (rstep rw o).2 = .sent id s) ∨ (∃ cls msg, (rstep rw o).2 = .raised cls msg s)) :
+    ∃ idx args kw net j its pl, o.1 = .execute idx args kw net ∧ rw.w.jobs[idx]? = some (j, its) ∧ j.fresh = true ∧
+      createPayloadData j args kw = .ok pl ∧ s = ⟨j.jobName, pl, its⟩ ∧
+      (postReq rw.h s).body = some ⟨rw.h.name, ⟨j.jobName, pl, its⟩⟩ := by
+  rcases rstep_out rw o with ⟨out, ho⟩ | ⟨idx, args, kw, net, jobs', s', hop, hprep, -, hres⟩
+  · rcases h with ⟨id, h⟩ | ⟨cls, msg, h⟩ <;> rw [ho] at h <;> cases h
+  · have hss : s' = s := by
+      rcases hres with ⟨id, -, h'⟩ | ⟨cls, msg, -, h'⟩ <;> rcases h with ⟨id', h⟩ | ⟨cls', msg', h⟩ <;>
+        rw [h'] at h <;> cases h <;> rfl
+    subst hss
+    obtain ⟨j, its, pl, hj, hf, hc, hs⟩ := execPrep_ready rw.w idx args kw jobs' s' hprep
+    exact ⟨idx, args, kw, net, j, its, pl, hop, hj, hf, hc, hs, by rw [hs]; rfl⟩
+
+/-- non-vacuity: a job executed under a `201 Created` answer — the POST is emitted, `create_job` raises `HTTPError`
+(the code wants 200), the platform has the job; executed again: refused client-side, nothing emitted -/
+def rpcWitnessHandler : Handler := ⟨"sim:x".toList, "https://api.invalid".toList, some "tok".toList, none, 10⟩
+
+def rpcWitnessOps : List ROp :=
+  [(.newRemote false 2 0 [] none, .readTimeout), (.setFilter (some 0), .readTimeout), (.withInput [1, 0], .readTimeout),
+   (.newSampler (.int 100), .readTimeout), (.createJob .probs, .readTimeout),
+   (.execute 0 [] [] .ok, .answer 201 (.obj (some "j1".toList) none)),
+   (.execute 0 [] [] .ok, .answer 200 (.obj (some "j2".toList) none))]
+
+/-- class and message of an exception `create_job` raised -/
+def ROut.raisedAs : ROut → Option (String × Option Text)
+  | .raised cls msg _ => some (cls, msg)
+  | _ => none
+
+example :
+    (posts (run rstep (RWorld.init ⟨none, none, none, none, ["probs"]⟩ rpcWitnessHandler) rpcWitnessOps).1.http).length = 1 ∧
+    (run rstep (RWorld.init ⟨none, none, none, none, ["probs"]⟩ rpcWitnessHandler) rpcWitnessOps).1.http.length = 2 ∧
+    (run rstep (RWorld.init ⟨none, none, none, none, ["probs"]⟩ rpcWitnessHandler) rpcWitnessOps).1.w.log.length = 1 ∧
+    ((run rstep (RWorld.init ⟨none, none, none, none, ["probs"]⟩ rpcWitnessHandler) rpcWitnessOps).2[5]?.bind ROut.raisedAs) =
+      some ("HTTPError", some unspecified) ∧
+    (run rstep (RWorld.init ⟨none, none, none, none, ["probs"]⟩ rpcWitnessHandler) rpcWitnessOps).2[6]? =
+      some (.plain (.err .assertion)) := by
+  decide
+
+/-- **posts_are_the_executions_requests.**  Over EVERY history from the initial state, whatever the transport does
+to each request: the job-creation requests the client has emitted are exactly the ones the outputs of the calls stand
+for, in order — one per execution that passed the client-side checks, none from any other call. -/
+theorem posts_are_the_executions_requests (pf : Platform) (h : Handler) (ops : List ROp) :
+    posts (exec rstep (RWorld.init pf h) ops).http = postsOf h ops (run rstep (RWorld.init pf h) ops).2 := by
+  rw [rexec_posts]; rfl
+
+/-- **platform_jobs_are_the_accepted_posts.**  Over every history: the requests the platform holds (the session
+machine's log, of which `one_create_per_execute`, `clamp_every_sent`, `sent_iterations_were_checked…` speak) are
+exactly the JSON documents of the emitted POSTs that the platform answered with a 2xx status or whose answer was
+never read, in order.  Nothing else reaches the platform. -/
+theorem platform_jobs_are_the_accepted_posts (pf : Platform) (h : Handler) (ops : List ROp) :
+    (exec rstep (RWorld.init pf h) ops).w.log = acceptedBodies (exec rstep (RWorld.init pf h) ops).http := by
+  apply inv_exec rstep (fun rw => rw.w.log = acceptedBodies rw.http)
+  · intro rw o hi
+    rw [rstep_log, rstep_http, acceptedBodies_append, hi]
+  · rfl
+
+/-- the shape of every emitted request -/
+def FromHandler (h : Handler) (x : Exchange) : Prop :=
+  x.req.auth = h.auth ∧ x.req.timeout = h.timeout ∧ x.req.proxies = h.proxies ∧
+  ((x.req.verb = .get ∧ x.req.url = h.url ++ apiPlatform ++ quotePlus h.name ∧ x.req.body = none) ∨
+   (x.req.verb = .post ∧ x.req.url = h.url ++ apiJob ∧ ∃ s, x.req.body = some ⟨h.name, s⟩ ∧ Clamped s.payload))
+
+/-- `build_endpoint('/api/job')` and `build_endpoint('/api/platform/', quote_plus(name))`, for every base URL and
+platform name: the base URL followed by the path (a base URL ending with `/` gives `//`: the code does not strip it) -/
+theorem create_job_url (h : Handler) (s : Sent) : (postReq h s).url = h.url ++ apiJob := by
+  simp only [postReq, buildEndpoint, List.map_nil, List.isEmpty_nil, if_true, List.append_nil]
+  have : stripSlash apiJob = ['a', 'p', 'i', '/', 'j', 'o', 'b'] := by decide
+  rw [this]; simp [apiJob]
+
+theorem platform_details_url (h : Handler) : (fetchReq h).url = h.url ++ apiPlatform ++ quotePlus h.name := by
+  simp only [fetchReq, buildEndpoint, List.map_cons, List.map_nil, List.isEmpty_cons, Bool.false_eq_true, if_false,
+    joinSlash]
+  have h1 : stripSlash apiPlatform = ['a', 'p', 'i', '/', 'p', 'l', 'a', 't', 'f', 'o', 'r', 'm'] := by decide
+  have h2 : stripSlash (quotePlus h.name) = quotePlus h.name :=
+    stripSlash_of_not_mem _ fun c hc => urlSafe_ne_slash c (quotePlus_safe' h.name c hc)
+  rw [h1, h2]; simp [apiPlatform]
+
+/-- **quote_plus_is_url_safe.**  Whatever the platform name, every character of the quoted name is an ASCII letter,
+a digit, one of `_.-~`, `+` or `%`: the name cannot add a path segment, a query or a fragment to the URL. -/
+theorem quote_plus_is_url_safe (s : Text) : ∀ c ∈ quotePlus s, urlSafe c ∧ c ≠ '/' ∧ c ≠ '?' ∧ c ≠ '#' ∧ c ≠ ' ' := by
+  intro c hc
+  have hs := quotePlus_safe' s c hc
+  refine ⟨hs, urlSafe_ne_slash c hs, ?_, ?_, ?_⟩ <;> rintro rfl <;> rcases hs with h | h | h <;> revert h <;> decide
+
+example : quotePlus "sim:a b/ç".toList = "sim%3Aa+b%2F%C3%A7".toList := by decide
+
+/-- **every_request_comes_from_the_handler.**  Over every history: EVERY HTTP request the client has emitted carries
+the handler's `Authorization: Bearer <token>` header, time-out and proxies; it is either the platform-details GET of a
+`RemoteProcessor` constructor or the POST of an execution to `<url>/api/job`, whose JSON document names the handler's
+platform and has `max_samples ≤ max_shots` — whether or not the platform took it. -/
+theorem every_request_comes_from_the_handler (pf : Platform) (h : Handler) (ops : List ROp) :
+    ∀ x ∈ (exec rstep (RWorld.init pf h) ops).http, FromHandler h x := by
+  have key := inv_exec rstep (fun rw => rw.h = h ∧ ∀ x ∈ rw.http, FromHandler h x) (fun rw o hi => by
+    obtain ⟨hh, hi⟩ := hi
+    refine ⟨by rw [rstep_h, hh], ?_⟩
+    intro x hx
+    rw [rstep_http, List.mem_append] at hx
+    rcases hx with hx | hx
+    · exact hi x hx
+    · unfold emitted at hx
+      rw [List.mem_append] at hx
+      rcases hx with hx | hx
+      · split at hx
+        · simp only [List.mem_cons, List.not_mem_nil, or_false] at hx
+          subst hx; rw [hh]
+          exact ⟨rfl, rfl, rfl, .inl ⟨rfl, platform_details_url h, rfl⟩⟩
+        · cases hx
+      · rcases rstep_out rw o with ⟨out, ho⟩ | ⟨idx, args, kw, net, jobs', s, -, hprep, hpost, -⟩
+        · rw [ho] at hx; cases hx
+        · rw [hpost] at hx
+          simp only [List.mem_cons, List.not_mem_nil, or_false] at hx
+          subst hx; rw [hh]
+          obtain ⟨j, its, pl, -, -, hc, hs⟩ := execPrep_ready rw.w idx args kw jobs' s hprep
+          exact ⟨rfl, rfl, rfl, .inr ⟨rfl, create_job_url h s, s, rfl, by rw [hs]; exact clamp j args kw pl hc⟩⟩)
+    (RWorld.init pf h) ⟨rfl, fun x hx => by cases hx⟩ ops
+  exact key.2
+
+/-- **no_post_without_execute.**  A history without `execute` emits no job-creation request, whatever else is done
+(`prepare_job_payload`, job creations, processor constructions — these only fetch the platform details). -/
+theorem no_post_without_execute (rw : RWorld) (ops : List ROp) (h : ∀ o ∈ ops, o.1.isExecute = false) :
+    posts (exec rstep rw ops).http = posts rw.http := by
+  induction ops generalizing rw with
+  | nil => rfl
+  | cons o ops ih =>
+    rw [exec_cons, ih _ (fun x hx => h x (List.mem_cons_of_mem _ hx)), rstep_http, posts_append, posts_emitted,
+      rstep_not_execute rw o (h o (by simp)), List.append_nil]
+
+/-- **job_posted_at_most_once.**  Once `execute` has been called on a job — whatever came of it: the id came back,
+`create_job` raised on ANY answer or transport failure (the request may or may not have reached the platform), or the
+call was refused before anything was emitted — every later `execute` of that job, after any history whatsoever and
+whatever the transport would do, is refused with `AssertionError` and emits NOTHING: a POST whose answer was lost,
+unreadable or an error status is never emitted a second time. -/
+theorem job_posted_at_most_once (rw : RWorld) (idx : Nat) (args args' : List PV) (kw kw' : Dict PV) (net net' : Net)
+    (wire wire' : Wire) (ops : List ROp) (hidx : idx < rw.w.jobs.length) :
+    let rw₂ := exec rstep (rstep rw (.execute idx args kw net, wire)).1 ops
+    rstep rw₂ (.execute idx args' kw' net', wire') = (rw₂, .plain (.err .assertion)) := by
+  intro rw₂
+  have h1 : Executed (rstep rw (.execute idx args kw net, wire)).1.w idx := by
+    rw [(rstep_refines rw _).1, toOp_execute]
+    rcases step_execute rw.w idx args kw wire.net with ⟨hn, -⟩ | ⟨j, its, hj, hf, h⟩ | ⟨j, its, err, hj, -, -, h⟩ |
+        ⟨j, its, pl, hj, -, -, h⟩
+    · rw [List.getElem?_eq_getElem hidx] at hn; cases hn
+    · rw [h]; exact ⟨j, its, hj, hf⟩
+    · rw [h]; exact ⟨{ j with fresh := false }, its, by simp [hidx], rfl⟩
+    · rw [h]; exact ⟨{ j with fresh := false }, its, by simp [hidx], rfl⟩
+  have h2 : Executed rw₂.w idx := by
+    show Executed (exec rstep _ ops).w idx
+    rw [rexec_refines]
+    exact inv_exec step (Executed · idx) (fun s op hs => executed_step s op idx hs) _ h1 _
+  simp only [rstep, execPrep_executed rw₂.w idx args' kw' h2]
+
+/-- **create_job_returns_iff_200_with_job_id.**  `create_job` returns a job id exactly when the answer has status 200
+and a JSON object with `job_id`; every other behaviour of the transport raises — including a 2xx status other than
+200 and a 200 whose body is unusable, for which the platform HAS the job (`Wire.net = .lost`). -/
+theorem create_job_returns_iff_200_with_job_id (wire : Wire) (id : Text) :
+    createJobResult wire = .ok id ↔ ∃ e, wire = .answer 200 (.obj (some id) e) := by
+  constructor
+  · intro h
+    cases wire with
+    | answer code r =>
+      by_cases hc : code = 200
+      · subst hc
+        cases r with
+        | obj a b =>
+          cases a with
+          | none => simp [createJobResult] at h
+          | some a => simp [createJobResult] at h; subst h; exact ⟨b, rfl⟩
+        | notJson => simp [createJobResult] at h
+        | list => simp [createJobResult] at h
+      · cases r with
+        | obj a b => cases b <;> simp [createJobResult, hc] at h
+        | notJson => simp [createJobResult, hc] at h
+        | list => simp [createJobResult, hc] at h
+    | readTimeout => simp [createJobResult] at h
+    | connectionError => simp [createJobResult] at h
+    | connectTimeout => simp [createJobResult] at h
+  · rintro ⟨e, rfl⟩; rfl
+
+example : (Wire.answer 201 (.obj (some ['j']) none)).net = .lost ∧ (Wire.answer 200 .notJson).net = .lost ∧
+    (Wire.answer 500 .notJson).net = .down ∧ Wire.readTimeout.net = .lost ∧ Wire.connectTimeout.net = .down := by decide
 
 /-! ## what is still NOT proved (validated by the correspondence only)
 
